@@ -213,9 +213,6 @@ func (w *world) setList(l []string) string {
 }
 
 func evmOf(tx *types.Transaction) string {
-	if string(types.GetRealExecName(tx.GetExecer())) != "evm" {
-		return "n"
-	}
 	var a types.EVMContractAction4Chain33
 	if types.Decode(tx.GetPayload(), &a) != nil {
 		return "n"
@@ -224,7 +221,7 @@ func evmOf(tx *types.Transaction) string {
 }
 
 func txv(tx *types.Transaction) string {
-	return hx(tx.From()) + "/" + hx(tx.GetTo()) + "/" + hx(tx.GetRealToAddr()) + "/" + evmOf(tx)
+	return hx(tx.From()) + "/" + hx(tx.GetTo()) + "/" + hx(tx.GetRealToAddr()) + "/" + hx(string(tx.GetExecer())) + "/" + evmOf(tx)
 }
 
 func posOf(err error) string {
@@ -262,6 +259,20 @@ func (w *world) sign(tx *types.Transaction, kind int) {
 
 func coinsPayload(amount int64, to string) []byte {
 	return types.Encode(&cty.CoinsAction{Ty: cty.CoinsActionTransfer, Value: &cty.CoinsAction_Transfer{Transfer: &types.AssetsTransfer{Amount: amount, To: to}}})
+}
+
+// executor names GetRealExecName maps to "evm" ...
+var evmShapes = []string{"evm", "user.evm.abc", "user.evm", "user.evm.x.y", "user.p.tt.evm", "user.p.tt.user.evm.x", "user.p.test.evm", "user.p.test.user.evm.q"}
+
+// ... and decoys that merely contain or end in "evm": their payload is NOT an EVM position
+var evmDecoys = []string{"xevm", "user.evmx", "user.p.tt.notevm", "user.write.evm", "user..evm", "user.p.evm", "user.p.tt.", "user.p.tt.user.evmx.evm", "evm.user", "EVM"}
+
+// evmExecer picks an executor name for an EVM-looking payload; isEvm is the ground truth.
+func (w *world) evmExecer() (string, bool) {
+	if w.r.Chance(1, 3) {
+		return evmDecoys[w.r.Intn(len(evmDecoys))], false
+	}
+	return evmShapes[w.r.Intn(len(evmShapes))], true
 }
 
 // genTx builds a transaction touching (or not) a victim at a generated position / spelling.
@@ -304,11 +315,12 @@ func (w *world) genTx(para bool) *txSpec {
 		raw, v := pick()
 		form := r.Intn(nForms)
 		a := &types.EVMContractAction4Chain33{GasLimit: 10000, GasPrice: 1, ContractAddr: spell(r, raw, form)}
-		ex := title + "evm"
+		ex, isEvm := w.evmExecer()
 		tx := &types.Transaction{Execer: []byte(ex), Payload: types.Encode(a), To: address.ExecAddress(ex), Fee: fee, Nonce: nonce, ChainID: w.cfg.GetChainID()}
 		w.sign(tx, 0)
-		sp.tx, sp.truth, sp.where = tx, v, "evmContract/"+formNames[form]
+		sp.tx, sp.truth, sp.where = tx, v && isEvm, "evmContract/"+formNames[form]+"/"+ex
 		out.Stat("pos_evmContract_"+formNames[form], 1)
+		out.Stat("evm_execer_"+ex, 1)
 	case 3: // EVM plain transfer target (raw 20 bytes in Para)
 		raw, v := pick()
 		p := raw
@@ -319,11 +331,12 @@ func (w *world) genTx(para bool) *txSpec {
 			p, v = append(append([]byte{}, raw...), 0), false
 		}
 		a := &types.EVMContractAction4Chain33{Amount: 1, GasLimit: 10000, GasPrice: 1, Para: p, ContractAddr: address.ExecAddress("evm")}
-		ex := title + "evm"
+		ex, isEvm := w.evmExecer()
 		tx := &types.Transaction{Execer: []byte(ex), Payload: types.Encode(a), To: address.ExecAddress(ex), Fee: fee, Nonce: nonce, ChainID: w.cfg.GetChainID()}
 		w.sign(tx, 0)
-		sp.tx, sp.truth, sp.where = tx, v, fmt.Sprint("evmPara/len", len(p))
+		sp.tx, sp.truth, sp.where = tx, v && isEvm, fmt.Sprint("evmPara/len", len(p), "/", ex)
 		out.Stat(fmt.Sprint("pos_evmPara_len", len(p)), 1)
+		out.Stat("evm_execer_"+ex, 1)
 	case 4: // not an EVM transaction although the payload looks like one; recipient malformed
 		raw, _ := pick()
 		a := &types.EVMContractAction4Chain33{GasLimit: 1, GasPrice: 1, ContractAddr: spell(r, raw, r.Intn(nForms)), Para: raw}
@@ -381,6 +394,10 @@ func (w *world) coreSweep(n int, para bool) {
 		} else {
 			out.Stat("tx_not_touching_blacklist", 1)
 		}
+	}
+	// GetRealExecName on its own
+	for _, e := range append(append([]string{"", "user.", "user.p.", "user.p", "user.p..evm", "user.p.a.b.c.evm", "user.a", "user.a.", "coins", "user.p.tt.user.p.uu.evm"}, evmShapes...), evmDecoys...) {
+		out.Op("realexec "+hx(e), hxb(types.GetRealExecName([]byte(e))))
 	}
 	// spelling parse on its own: every form and malformed texts as single-entry blacklists
 	for i := 0; i < n/4; i++ {
